@@ -857,7 +857,7 @@ theorem hinv_runQ {h0 : Option Nat} (fuel : Nat) (w : W) (hi : HInv h0 w) (si : 
       have hs : HInv h0 (W.tryFinishStop { w with env := w.env.settle }) :=
         h1.step (fun _ hs => hq_tryFinishStop _ hs)
       have ss : StopInv (W.tryFinishStop { w with env := w.env.settle }) :=
-        stopInv_tryFinishStop _ (si.same ⟨rfl, rfl, rfl⟩ rfl rfl rfl)
+        stopInv_tryFinishStop _ (si.same ⟨rfl, rfl, rfl, rfl⟩ rfl rfl rfl)
       split
       · exact hs
       · exact ih _ hs ss
@@ -876,7 +876,7 @@ theorem hinv_advanceTo {h0 : Option Nat} (t fuel : Nat) (w : W) (hi : HInv h0 w)
       have h1 : HInv h0 { w.setNow w.nextCalc with nextCalc := t + CALCULATE_FREQUENCY * 1000000 } :=
         hi.step (fun _ hs => HQ.same hs rfl rfl rfl)
       have s1 : StopInv { w.setNow w.nextCalc with nextCalc := t + CALCULATE_FREQUENCY * 1000000 } :=
-        si.same ⟨rfl, rfl, rfl⟩ rfl rfl rfl
+        si.same ⟨rfl, rfl, rfl, rfl⟩ rfl rfl rfl
       exact ih _ (hinv_runQ _ _ (hinv_send _ _ h1) (stopInv_send _ _ s1)) (stopInv_runQ _ _ (stopInv_send _ _ s1))
     · exact hi.step (fun _ hs => HQ.same hs rfl rfl rfl)
 
@@ -953,7 +953,7 @@ theorem hinv_queries {h0 : Option Nat} (w : W) (hi : HInv h0 w) (si : StopInv w)
   unfold W.queries
   split
   · exact hi.step (fun _ hs => HQ.same hs rfl rfl rfl)
-  · have s0 : StopInv { w with answers := [] } := si.same ⟨rfl, rfl, rfl⟩ rfl rfl rfl
+  · have s0 : StopInv { w with answers := [] } := si.same ⟨rfl, rfl, rfl, rfl⟩ rfl rfl rfl
     have h0' : HInv h0 { w with answers := [] } := hi.step (fun _ hs => HQ.same hs rfl rfl rfl)
     have s1 := stopInv_ask _ FMsg.getQueueDepth s0
     have h1 := hinv_ask _ FMsg.getQueueDepth h0' s0
